@@ -152,6 +152,7 @@ class SubCheck:
         isolate=False,
         thorough_flavour=None,
         max_shrink_runs=(400, 4000),
+        hang_s=None,
     ):
         self.name = name
         self.run = run
@@ -168,6 +169,7 @@ class SubCheck:
         self.shards = shards
         self.isolate = isolate
         self.max_shrink_runs = max_shrink_runs
+        self.hang_s = hang_s
 
     def budget(self, tier):
         return self.quick if tier == "quick" else self.thorough
